@@ -83,7 +83,13 @@ def gen(rng, tier, index):
                 sched["horizon"] = rng.choice([500, 3000, 20000])
         else:
             sched = {"policy": "serial"}
-        variants.append({"flavour": flavour, "seg": seg, "cuts": cuts, "sched": sched, "gap": rng.choice([0.0, 0.0, 0.001, 0.03])})
+        var = {"flavour": flavour, "seg": seg, "cuts": cuts, "sched": sched, "gap": rng.choice([0.0, 0.0, 0.001, 0.03])}
+        if flavour in ("serial", "tcp") and rng.random() < 0.2:
+            # the last two lines arrive back to back while the poll thread is just finishing the first of them:
+            # one or two forced switches inside the poll loop, counted from the arrival of the first
+            var.update(seg="lines", cuts=[], gap=0.03, tail_race=True,
+                       sched={"policy": "pct", "seed": rng.getrandbits(32), "k": rng.choice([1, 2]), "horizon": rng.choice([8, 12]), "arm": True})
+        variants.append(var)
     return {"cfg": {"version": version, "stream": stream.hex(), "line_ends": line_ends}, "ops": variants}
 
 
@@ -121,7 +127,8 @@ def _execute(version, stream, line_ends, variant, probes):
     flavour = variant["flavour"]
     # a huge reconnect timeout keeps the TCP watchdog (clock driven, its answers would be
     # spliced into the byte stream under test) out of the picture
-    world = W.World(flavour, {"protocol_version": version, "reconnect_timeout": 1e7}, sched=variant["sched"], max_steps=2_000_000)
+    world = W.World(flavour, {"protocol_version": version, "reconnect_timeout": 1e7}, sched=variant["sched"], max_steps=2_000_000,
+                    window=(lambda code: code.co_name == "_poll_queue") if variant.get("tail_race") else None)
     sim = world.sim
     res = {"incomplete": None}
     try:
@@ -130,8 +137,13 @@ def _execute(version, stream, line_ends, variant, probes):
             world.start()
             base = len(world.device.writes)
             segs = _segments(stream, line_ends, variant["seg"], variant["cuts"])
-            for seg in segs:
+            for k, seg in enumerate(segs):
                 world.device.inject(seg)
+                if variant.get("tail_race") and k == len(segs) - 2:
+                    probes["tail_races"] = probes.get("tail_races", 0) + 1
+                    sim.pct_arm()
+                    sim.yield_point()  # the next line is right behind: no time passes, who runs is the scheduler's call
+                    continue
                 if variant["gap"] > 0:
                     sim.sleep(variant["gap"])
                 elif variant["seg"] != "bytes":
